@@ -57,8 +57,27 @@ Inductive action :=
 | AInsSigned (k : skey) (r : srow)
 | ACommit.
 (* st_unchecked: the program does not look at this statement's error (a cursor error that only
-   ends a `for rows.Next()` loop which is not followed by rows.Err()) *)
-Record stmt := mk_stmt { st_place : place; st_act : action; st_unchecked : bool }.
+   ends a `for rows.Next()` loop which is not followed by rows.Err()).
+   st_retried: database/sql itself repeats the call when the driver answers driver.ErrBadConn
+   (DB.Query, DB.Begin and Stmt.Exec go through DB.retry: two more attempts; Tx.Exec, Tx.Prepare,
+   Rows.Next and Tx.Commit do not) *)
+Record stmt := mk_stmt { st_place : place; st_act : action; st_unchecked : bool; st_retried : bool }.
+
+(* WHAT fails: the kind of error the driver returns for the failing statement, and whether only
+   that one call fails (f_once: a transient condition, the next call works again) or every call
+   from there on (a standing condition).
+     KGeneric   an error value of no particular type
+     KBusy      sqlite3.Error{Code: SQLITE_BUSY}   (another connection holds the file lock)
+     KLocked    sqlite3.Error{Code: SQLITE_LOCKED} (a table lock inside the same process)
+     KBadConn   driver.ErrBadConn
+     KDeadline  context.DeadlineExceeded *)
+Inductive fkind := KGeneric | KBusy | KLocked | KBadConn | KDeadline.
+Record fault := F { f_at : nat; f_kind : fkind; f_once : bool }.
+Definition gen (k : nat) : fault := F k KGeneric true.      (* the fault of the first version of this model *)
+Definition is_badconn (k : fkind) : bool := match k with KBadConn => true | _ => false end.
+Definition is_busy (k : fkind) : bool := match k with KBusy | KLocked => true | _ => false end.
+(* a transient bad connection on a call that database/sql repeats is never seen by the program *)
+Definition absorbed (f : fault) (s : stmt) : bool := is_badconn (f_kind f) && f_once f && st_retried s.
 
 Definition act_on (a : action) (d : db) : db :=
   match a with
@@ -80,46 +99,95 @@ Definition apply_stmt (s : stmt) (comm pend : db) : db * db :=
          end
   end.
 
-Definition fdec (f : option nat) : option nat :=
-  match f with Some (S n) => Some n | _ => None end.
+Definition fdec (f : option fault) : option fault :=
+  match f with Some (F (S n) k o) => Some (F n k o) | _ => None end.
 
-(* run the statements; f = Some k: the k-th statement (counting executed ones) fails.
+(* run the statements; f = Some (F k kind once): the k-th statement (counting executed ones)
+   fails with an error of that kind — and, when [once] is false, every later one too.
    A checked failure makes the function return its error: the deferred tx.Rollback discards
    pend, the result is comm.  An unchecked failure ends the loop the statement belongs to
-   (skip = true skips the rest of that loop) and the program carries on. *)
-Fixpoint exec (sc : list stmt) (f : option nat) (skip : bool) (comm pend : db) : db * bool :=
+   (skip = true skips the rest of that loop) and the program carries on.  The function does not
+   look at the KIND of the error: nothing is tried again by the program itself; the only
+   repetition is database/sql's own on driver.ErrBadConn ([absorbed]). *)
+Fixpoint exec (sc : list stmt) (f : option fault) (skip : bool) (comm pend : db) : db * bool :=
   match sc with
   | [] => (comm, true)
   | s :: rest =>
       if skip && st_unchecked s then exec rest f true comm pend
       else match f with
-           | Some O => if st_unchecked s then exec rest None true comm pend
-                       else (comm, false)
+           | Some (F O k o) =>
+               if absorbed (F O k o) s
+               then let '(c', p') := apply_stmt s comm pend in exec rest None false c' p'
+               else if st_unchecked s then exec rest (if o then None else f) true comm pend
+               else (comm, false)
            | _ => let '(c', p') := apply_stmt s comm pend in exec rest (fdec f) false c' p'
            end
   end.
 
-Definition q_src := mk_stmt OnSource ANone false.           (* source.Query(...) *)
-Definition s_begin := mk_stmt InTx ANone false.             (* destination.Begin() *)
-Definition s_prepare := mk_stmt InTx ANone false.           (* tx.Prepare(...) *)
-Definition s_next := mk_stmt OnSource ANone false.          (* rows.Next() incl. the final one + rows.Err() *)
-Definition s_commit := mk_stmt InTx ACommit false.
+Definition q_src := mk_stmt OnSource ANone false true.      (* source.Query(...) *)
+Definition s_begin := mk_stmt InTx ANone false true.        (* destination.Begin() *)
+Definition s_prepare := mk_stmt InTx ANone false false.     (* tx.Prepare(...) *)
+Definition s_next := mk_stmt OnSource ANone false false.    (* rows.Next() incl. the final one + rows.Err() *)
+Definition s_commit := mk_stmt InTx ACommit false false.
+Definition s_del_profiles := mk_stmt InTx ADelProfiles false false.   (* tx.Exec("DELETE ...") *)
+Definition s_del_signed := mk_stmt InTx ADelSigned false false.
+Definition s_ins_profile (e : ukey * N) := mk_stmt InTx (AInsProfile (fst e) (snd e)) false true.   (* stmt.Exec *)
+Definition s_ins_signed (e : skey * srow) := mk_stmt InTx (AInsSigned (fst e) (snd e)) false true.
 
 Definition copy_profiles (src : db) : list stmt :=
-  flat_map (fun e => [s_next; mk_stmt InTx (AInsProfile (fst e) (snd e)) false]) (profiles src) ++ [s_next].
+  flat_map (fun e => [s_next; s_ins_profile e]) (profiles src) ++ [s_next].
 Definition live_signed (src : db) (now : Z) : list (skey * srow) :=
   filter (fun e => unexpired now (snd e)) (signed src).
 Definition copy_signed (src : db) (now : Z) : list stmt :=
-  flat_map (fun e => [s_next; mk_stmt InTx (AInsSigned (fst e) (snd e)) false]) (live_signed src now) ++ [s_next].
+  flat_map (fun e => [s_next; s_ins_signed e]) (live_signed src now) ++ [s_next].
 
 (* copyDBIntoSQLite after the repair: both DELETEs by tx.Exec inside the transaction, the
    signed-row cursor error is looked at before the commit *)
 Definition sync_script (src : db) (now : Z) : list stmt :=
-  [q_src; q_src; s_begin; mk_stmt InTx ADelProfiles false; mk_stmt InTx ADelSigned false; s_prepare]
+  [q_src; q_src; s_begin; s_del_profiles; s_del_signed; s_prepare]
   ++ copy_profiles src ++ [s_prepare] ++ copy_signed src now ++ [s_commit].
 
-Definition sync (src : db) (now : Z) (f : option nat) (cache : db) : db * bool :=
+Definition sync (src : db) (now : Z) (f : option fault) (cache : db) : db * bool :=
   exec (sync_script src now) f false cache cache.
+
+(* A variant that is NOT the code: the destination transaction is written again (up to
+   `attempts` times in all) when it failed with SQLITE_BUSY / SQLITE_LOCKED, with the source
+   cursors left where the failed attempt stopped reading them.  [exec_r] is [exec] that also
+   returns the statements after the failing one; the next attempt begins a new transaction,
+   empties both tables and goes on with whatever the cursors still deliver. *)
+Fixpoint exec_r (sc : list stmt) (f : option fault) (comm pend : db) : db * bool * option fault * list stmt :=
+  match sc with
+  | [] => (comm, true, f, [])
+  | s :: rest =>
+      match f with
+      | Some (F O k o) =>
+          if absorbed (F O k o) s
+          then let '(c', p') := apply_stmt s comm pend in exec_r rest None c' p'
+          else (comm, false, (if o then None else f), rest)
+      | _ => let '(c', p') := apply_stmt s comm pend in exec_r rest (fdec f) c' p'
+      end
+  end.
+Definition is_row_stmt (s : stmt) : bool :=
+  match st_act s, st_place s with
+  | AInsProfile _ _, _ | AInsSigned _ _, _ => true
+  | ANone, OnSource => true
+  | _, _ => false
+  end.
+Fixpoint retry_loop (attempts : nat) (sc : list stmt) (f : option fault) (comm : db) : db * bool :=
+  match attempts with
+  | O => (comm, false)
+  | S n =>
+      let '(c, ok, f', rest) := exec_r sc f comm comm in
+      if ok then (c, true)
+      else match f with
+           | Some ft => if is_busy (f_kind ft)
+                        then retry_loop n ([s_begin; s_del_profiles; s_del_signed; s_prepare] ++ filter is_row_stmt rest ++ [s_commit]) f' c
+                        else (c, false)
+           | None => (c, false)
+           end
+  end.
+Definition sync_retrying (src : db) (now : Z) (f : option fault) (cache : db) : db * bool :=
+  retry_loop 3 (sync_script src now) f cache.
 
 (* copyDBIntoSQLite before the repair.  `DELETE from user_profile` went through
    destination.Query on the pool and the rows were closed un-iterated: the SQLite driver never
@@ -127,12 +195,12 @@ Definition sync (src : db) (now : Z) (f : option nat) (cache : db) : db * bool :
    durable outside the transaction (qde = true).  No delete of signed rows at all, and the
    second loop's cursor error is never looked at. *)
 Definition old_copy_signed (src : db) (now : Z) : list stmt :=
-  flat_map (fun e => [mk_stmt OnSource ANone true; mk_stmt InTx (AInsSigned (fst e) (snd e)) true]) (live_signed src now)
-  ++ [mk_stmt OnSource ANone true].
+  flat_map (fun e => [mk_stmt OnSource ANone true false; mk_stmt InTx (AInsSigned (fst e) (snd e)) true true]) (live_signed src now)
+  ++ [mk_stmt OnSource ANone true false].
 Definition old_sync_script (qde : bool) (src : db) (now : Z) : list stmt :=
-  [q_src; q_src; s_begin; mk_stmt OnPool (if qde then ADelProfiles else ANone) false; s_prepare]
+  [q_src; q_src; s_begin; mk_stmt OnPool (if qde then ADelProfiles else ANone) false true; s_prepare]
   ++ copy_profiles src ++ [s_prepare] ++ old_copy_signed src now ++ [s_commit].
-Definition old_sync (qde : bool) (src : db) (now : Z) (f : option nat) (cache : db) : db * bool :=
+Definition old_sync (qde : bool) (src : db) (now : Z) (f : option fault) (cache : db) : db * bool :=
   exec (old_sync_script qde src now) f false cache cache.
 
 (* cleanupDBData: DELETE ... WHERE expiration_epoch < now (by Exec after the repair; before it
@@ -196,7 +264,12 @@ Inductive hkind :=
 Inductive op :=
 | Save (u : ukey) (b : N) | DelUser (u : ukey)
 | Upsert (u t d : N) (exp : Z) | DelSigned (u t : N)
-| Tick (dt : Z) | Sync (f : option nat) | Cleanup | SetMode (m : mode)
+| Tick (dt : Z) | Sync (f : option fault) | Cleanup | SetMode (m : mode)
+| Restart          (* a new daemon process on the same data directory: whatever the old process held in
+                      memory is gone, both database FILES are what they were *)
+| Copier (f : option fault)   (* one turn of the BackgroundDBCopy loop: the copy (its outcome goes to the log),
+                                 then cleanupDBData on the primary and on the cache; between two turns the loop
+                                 sleeps ProfileStorage.SyncInterval — WHEN a turn happens is the history's choice *)
 | Load (u : ukey) | GetS (u t : N) | Users
 | Handler (h : hkind) (u : ukey) (b : N).
 
@@ -265,9 +338,12 @@ Definition signed_both (write_through : bool) (s : state) (f : list (skey * srow
            (if write_through then set_signed (cache s) (f (signed (cache s))) else cache s)
            (now s) (pmode s).
 
-Definition step_gen (guarded write_through : bool) (reports : rfail -> bool) (syncf : db -> Z -> option nat -> db -> db * bool)
-           (cleanupf : Z -> db -> db) (s : state) (o : op) : state * out :=
+Definition step_gen (guarded write_through : bool) (reports : rfail -> bool) (syncf : db -> Z -> option fault -> db -> db * bool)
+           (cleanupf : Z -> db -> db) (restart_cache : db -> db) (s : state) (o : op) : state * out :=
   match o with
+  (* initDB opens the existing cache file (restart_cache = the identity); a start-up that recreates
+     the file is the refuted variant *)
+  | Restart => (with_cache s (restart_cache (cache s)), OOk)
   | Save u b => if writable s then (save s u b, OOk) else (s, OErr)
   | DelUser u => if writable s
                  then (with_primary s (set_profiles (primary s) (adel ukey_eqb u (profiles (primary s)))), OOk)
@@ -286,6 +362,11 @@ Definition step_gen (guarded write_through : bool) (reports : rfail -> bool) (sy
               else (s, OSync false)              (* the first source query fails *)
   | Cleanup => let s1 := if writable s then with_primary s (cleanupf (now s) (primary s)) else s in
                (with_cache s1 (cleanupf (now s) (cache s1)), OOk)
+  | Copier f => let '(s0, x) := (if writable s
+                                 then let '(c, ok) := syncf (primary s) (now s) f (cache s) in (with_cache s c, OSync ok)
+                                 else (s, OSync false)) in
+                let s1 := if writable s0 then with_primary s0 (cleanupf (now s0) (primary s0)) else s0 in
+                (with_cache s1 (cleanupf (now s0) (cache s1)), x)
   | SetMode m => (mk_state (primary s) (cache s) (now s) m, OOk)
   | Load u => match read_source reports (pmode s) with
               | ReadFails => (s, OErr)
@@ -306,13 +387,17 @@ Definition step_gen (guarded write_through : bool) (reports : rfail -> bool) (sy
   end.
 
 (* the repaired code *)
-Definition step : state -> op -> state * out := step_gen true true reports_none sync cleanup.
+Definition step : state -> op -> state * out := step_gen true true reports_none sync cleanup (fun c => c).
+(* NOT the code: the copy that writes its transaction again on SQLITE_BUSY with the consumed cursors *)
+Definition step_retrying : state -> op -> state * out := step_gen true true reports_none sync_retrying cleanup (fun c => c).
+(* NOT the code: a start-up that begins with a new, empty cache file *)
+Definition step_wiping : state -> op -> state * out := step_gen true true reports_none sync cleanup (fun _ => empty_db).
 (* the same with a failed query / row fetch of the primary reported to the caller (the code
    before that repair) *)
-Definition step_reporting : state -> op -> state * out := step_gen true true reports_old sync cleanup.
+Definition step_reporting : state -> op -> state * out := step_gen true true reports_old sync cleanup (fun c => c).
 (* the code before the repairs, on SQLite (qde = false) or an eagerly executing driver *)
 Definition step_old (qde : bool) : state -> op -> state * out :=
-  step_gen false false reports_old (old_sync qde) (fun n d => if qde then cleanup n d else d).
+  step_gen false false reports_old (old_sync qde) (fun n d => if qde then cleanup n d else d) (fun c => c).
 
 Fixpoint run_gen (st : state -> op -> state * out) (s : state) (ops : list op) : state * list out :=
   match ops with
@@ -321,6 +406,19 @@ Fixpoint run_gen (st : state -> op -> state * out) (s : state) (ops : list op) :
   end.
 Definition run := run_gen step.
 Definition final (ops : list op) : state := fst (run init ops).
+
+(* ghost: the user profiles the primary held when the last copy completed (a Sync or a turn of the
+   copier that reported success); run_ghost carries it along a history *)
+Definition completes (o : op) (x : out) : bool :=
+  match o, x with
+  | Sync _, OSync true | Copier _, OSync true => true
+  | _, _ => false
+  end.
+Fixpoint run_ghost (s : state) (g : list (ukey * N)) (ops : list op) : state * list (ukey * N) :=
+  match ops with
+  | [] => (s, g)
+  | o :: r => let '(s1, x) := step s o in run_ghost s1 (if completes o x then profiles (primary s) else g) r
+  end.
 
 (* ------------------------------------------------------------------ comparison helpers for case files *)
 Definition opt_eqb {A} (e : A -> A -> bool) (a b : option A) : bool :=
@@ -388,3 +486,93 @@ Definition handler_ok (c : handler_case) : bool :=
   N.eqb (match aget ukey_eqb 1%N (profiles (primary s1)) with Some b => b | None => 0%N end) res &&
   Bool.eqb (negb (same_db (cache s1) (cache s0))) cache_changed &&
   Bool.eqb (match o with OServed => true | _ => false end) served.
+
+(* the second-factor checks and readers after a restart during an outage: the profile is 11 in the
+   primary and 10 in the cache, the daemon is restarted, then the request (which would store 12) *)
+Definition restart_handler_case := (hkind * mode * N * bool * bool)%type.
+
+Definition restart_handler_ok (c : restart_handler_case) : bool :=
+  let '(h, m, res, cache_changed, served) := c in
+  let s0 := mk_state (mk_db [(1%N, 11%N)] []) (mk_db [(1%N, 10%N)] []) 0 m in
+  let '(s1, _) := step s0 Restart in
+  let '(s2, o) := step s1 (Handler h 1%N 12%N) in
+  N.eqb (match aget ukey_eqb 1%N (profiles (primary s2)) with Some b => b | None => 0%N end) res &&
+  Bool.eqb (negb (same_db (cache s2) (cache s0))) cache_changed &&
+  Bool.eqb (match o with OServed => true | _ => false end) served.
+
+(* ------------------------------------------------------------------ the property's predicate on an observation
+   A history on which implementation and model disagree is a concrete input; whether it also VIOLATES
+   the property is decided here: at the first step where the observation leaves the model (up to there
+   the model state is the implementation's), the conclusion of the property's theorem for that step is
+   evaluated on what was observed.
+     1 sync-reported-complete-not-mirror   c15_sync_mirror / c15_atomic (success => the new content)
+     2 sync-mixture                        c15_atomic (neither the old nor the new content)
+     3 sync-reported-failed-new-content    c15_atomic (failure => the old content)
+     4 sync-does-not-complete              c15_sync_completes (no fault, primary readable)
+     5 sync-changed-primary                c15_atomic
+     6 restart-changed-store               c15_restart_keeps_stores
+     7 outage-read                         c15_outage_reads (not answered from the cache / not its content)
+   0 = the observation differs from the model but satisfies the property (stricter, or unobserved) *)
+Definition snap_at (snaps : list (nat * db * db)) (i : nat) : option (db * db) :=
+  match find (fun e => Nat.eqb (fst (fst e)) i) snaps with
+  | Some (_, p, c) => Some (p, c)
+  | None => None
+  end.
+
+Definition classify (s : state) (o : op) (x : out) (sn : option (db * db)) : nat :=
+  match o, sn with
+  | Sync f, Some (p, c) =>
+      let cnew := fst (sync (primary s) (now s) None (cache s)) in
+      if negb (same_db p (primary s)) then 5%nat
+      else match x with
+           | OSync true => if writable s && same_db c cnew then 0%nat else 1%nat
+           | OSync false =>
+               if same_db c (cache s)
+               then match f with None => if writable s then 4%nat else 0%nat | Some _ => 0%nat end
+               else if writable s && same_db c cnew then 3%nat else 2%nat
+           | _ => 0%nat
+           end
+  | Copier f, Some (p, c) =>
+      (* the copy of a turn of the copier, then the purge: judged on the user profiles, which the purge leaves alone *)
+      let cnew := fst (sync (primary s) (now s) None (cache s)) in
+      let same_p a b := same_map ukey_eqb N.eqb (profiles a) (profiles b) in
+      if negb (same_p p (primary s)) then 5%nat
+      else match x with
+           | OSync true => if writable s && same_p c cnew then 0%nat else 1%nat
+           | OSync false =>
+               if same_p c (cache s)
+               then match f with None => if writable s then 4%nat else 0%nat | Some _ => 0%nat end
+               else if writable s && same_p c cnew then 3%nat else 2%nat
+           | _ => 0%nat
+           end
+  | Restart, Some (p, c) => if same_db p (primary s) && same_db c (cache s) then 0%nat else 6%nat
+  | Load _, _ | GetS _ _, _ | Users, _ =>
+      if mode_eqb (pmode s) Up then 0%nat
+      else if out_eqb (snd (step s o)) x then 0%nat else 7%nat
+  | _, _ => 0%nat
+  end.
+
+Fixpoint first_violation (s : state) (i : nat) (ops : list op) (outs : list out) (snaps : list (nat * db * db)) : nat :=
+  match ops, outs with
+  | o :: ro, x :: rx =>
+      let '(s1, xm) := step s o in
+      let sn := snap_at snaps i in
+      if out_eqb xm x && match sn with Some (p, c) => same_db (primary s1) p && same_db (cache s1) c | None => true end
+      then first_violation s1 (S i) ro rx snaps
+      else classify s o x sn
+  | _, _ => 0%nat
+  end.
+
+Definition history_violation (c : history_case) : nat :=
+  let '(ops, outs, snaps) := c in first_violation init 0 ops outs snaps.
+
+Fixpoint violating_from (l : list history_case) (i : nat) : list (nat * nat) :=
+  match l with
+  | [] => []
+  | c :: r => if history_ok c then violating_from r (S i)
+              else match history_violation c with
+                   | O => violating_from r (S i)
+                   | v => (i, v) :: violating_from r (S i)
+                   end
+  end.
+Definition violating_cases (l : list history_case) : list (nat * nat) := violating_from l 0.
